@@ -13,6 +13,32 @@ From Coq Require Import ZArith NArith List Bool.
 Import ListNotations.
 From V Require Import Model.Val Model.PyPrims Model.SaveTxn Proofs.SaveTxnP Gen.SaveTxnConsts.
 
+(* ---- the concrete instance used by the [*_hyps_sat] examples below (each shows that ALL hypotheses of
+        one theorem hold together): the real _tmpname constants, a non-empty declaration, a directory
+        with three files (two of them fragments, one of those in a sub-directory, one unrelated file),
+        a save of two fragments, the transaction set iterated in the opposite order ---- *)
+Definition hs_tmp : str -> str := tmpname TMP_PREFIX TMP_SUFFIX TMP_LIMIT.
+Definition hs_decl : str := [60;63;120;63;62]%N.                                   (* <?x?> *)
+Definition hs_files : list (str * str) :=
+  [([97;46;120]%N, [1]%N); ([122]%N, [9]%N); ([100;47;98;46;121]%N, [2]%N)].       (* a.x, z, d/b.y *)
+Definition hs_frags : list (str * str) := [([97;46;120]%N, [3]%N); ([100;47;98;46;121]%N, [4]%N)].
+Definition hs_order : list str := [[100;47;98;46;121]%N; [97;46;120]%N].
+Definition hs_side : Prop :=
+  NoDup (map fst hs_frags)
+  /\ (forall a b, In a (map fst hs_frags) -> In b (map fst hs_frags) -> hs_tmp a = hs_tmp b -> a = b)
+  /\ (forall a b, In a (map fst hs_frags) -> In b (map fst hs_frags) -> hs_tmp a <> b)
+  /\ NoDup hs_order /\ incl (map fst hs_frags) hs_order
+  /\ (forall n, In n (map fst hs_frags) -> fs_get hs_files (hs_tmp n) = None).
+Example hs_side_holds : hs_side.
+Proof.
+  assert (T : tmp_ok hs_tmp (map fst hs_frags) = true) by (vm_compute; reflexivity).
+  destruct (tmp_ok_sound _ _ T) as (A & B & C).
+  split; [exact A|]. split; [exact B|]. split; [exact C|].
+  split; [apply nodupS_NoDup; vm_compute; reflexivity|].
+  split; [intros n [<-|[<-|[]]]; cbn; tauto|].
+  intros n [<-|[<-|[]]]; vm_compute; reflexivity.
+Qed.
+
 (* 1. a fault at ANY point before the commit (k-th of: open / serialise / write declaration /
       write payload / close, for each fragment), of any kind e, dry run or not: the caller sees
       exactly e, every file is byte-identical, no temporary file remains, the handler is idle *)
@@ -25,6 +51,19 @@ Theorem failed_save_restores : forall tmp decl (f frags : list (str * str)) orde
   exists f2, save tmp decl true (single_fault k e) f true frags order dry = (f2, true, Some e) /\ fs_eq f2 f.
 Proof. intros tmp decl f frags order H1 H2 H3 H4 H5 k e dry. refine (failed_save_restores_l tmp decl f frags order H1 H2 H3 H4 H5 k e dry). Qed.
 Print Assumptions failed_save_restores.
+(* all hypotheses together: fault at the 8th point = f.write(declaration) of the SECOND fragment, real save *)
+Example failed_save_restores_hyps_sat :
+  NoDup (map fst hs_frags)
+  /\ (forall a b, In a (map fst hs_frags) -> In b (map fst hs_frags) -> hs_tmp a = hs_tmp b -> a = b)
+  /\ NoDup hs_order /\ incl (map fst hs_frags) hs_order
+  /\ (forall n, In n (map fst hs_frags) -> fs_get hs_files (hs_tmp n) = None)
+  /\ (7 < 5 * length hs_frags)%nat
+  /\ save hs_tmp hs_decl true (single_fault 7 E_OSError) hs_files true hs_frags hs_order false
+     = (hs_files, true, Some E_OSError).
+Proof.
+  destruct hs_side_holds as (A & B & _ & D & E & F).
+  repeat (split; [assumption|]). split; [cbn; repeat constructor|vm_compute; reflexivity].
+Qed.
 
 (* 1'. ... and the same model can then be saved successfully: the retry commits every fragment *)
 Theorem retry_succeeds : forall tmp decl (f frags : list (str * str)) order,
@@ -41,6 +80,20 @@ Theorem retry_succeeds : forall tmp decl (f frags : list (str * str)) order,
     /\ (forall m, ~ In m (map fst frags) -> fs_get f3 m = fs_get f m).
 Proof. exact retry_succeeds_l. Qed.
 Print Assumptions retry_succeeds.
+(* all hypotheses together: fault at f.close() of the first fragment (point 4), dry run, then the retry *)
+Example retry_succeeds_hyps_sat :
+  NoDup (map fst hs_frags)
+  /\ (forall a b, In a (map fst hs_frags) -> In b (map fst hs_frags) -> hs_tmp a = hs_tmp b -> a = b)
+  /\ (forall a b, In a (map fst hs_frags) -> In b (map fst hs_frags) -> hs_tmp a <> b)
+  /\ NoDup hs_order /\ incl (map fst hs_frags) hs_order
+  /\ (forall n, In n (map fst hs_frags) -> fs_get hs_files (hs_tmp n) = None)
+  /\ (4 < 5 * length hs_frags)%nat
+  /\ save hs_tmp hs_decl true (single_fault 4 E_KeyboardInterrupt) hs_files true hs_frags hs_order true
+     = (hs_files, true, Some E_KeyboardInterrupt).
+Proof.
+  destruct hs_side_holds as (A & B & C & D & E & F).
+  repeat (split; [assumption|]). split; [cbn; repeat constructor|vm_compute; reflexivity].
+Qed.
 
 (* 2. a dry-run save changes nothing *)
 Theorem dry_run_noop : forall tmp decl (f frags : list (str * str)) order,
@@ -51,6 +104,16 @@ Theorem dry_run_noop : forall tmp decl (f frags : list (str * str)) order,
   exists f2, save tmp decl true no_fault f true frags order true = (f2, true, None) /\ fs_eq f2 f.
 Proof. intros tmp decl f frags order H1 H2 H3 H4 H5. refine (dry_run_noop_l tmp decl f frags order H1 H2 H3 H4 H5). Qed.
 Print Assumptions dry_run_noop.
+Example dry_run_noop_hyps_sat :
+  NoDup (map fst hs_frags)
+  /\ (forall a b, In a (map fst hs_frags) -> In b (map fst hs_frags) -> hs_tmp a = hs_tmp b -> a = b)
+  /\ NoDup hs_order /\ incl (map fst hs_frags) hs_order
+  /\ (forall n, In n (map fst hs_frags) -> fs_get hs_files (hs_tmp n) = None)
+  /\ save hs_tmp hs_decl true no_fault hs_files true hs_frags hs_order true = (hs_files, true, None).
+Proof.
+  destruct hs_side_holds as (A & B & _ & D & E & F).
+  repeat (split; [assumption|]). vm_compute; reflexivity.
+Qed.
 
 (* 3. a successful save: every fragment holds its complete new content (declaration ++ payload,
       serialised before the first byte is written), nothing else changes, no temporary file remains *)
@@ -65,11 +128,27 @@ Theorem commit_complete : forall tmp decl (f frags : list (str * str)) order,
     /\ (forall m, ~ In m (map fst frags) -> fs_get f2 m = fs_get f m).
 Proof. exact commit_complete_l. Qed.
 Print Assumptions commit_complete.
+Example commit_complete_hyps_sat :
+  NoDup (map fst hs_frags)
+  /\ (forall a b, In a (map fst hs_frags) -> In b (map fst hs_frags) -> hs_tmp a = hs_tmp b -> a = b)
+  /\ (forall a b, In a (map fst hs_frags) -> In b (map fst hs_frags) -> hs_tmp a <> b)
+  /\ NoDup hs_order /\ incl (map fst hs_frags) hs_order
+  /\ (forall n, In n (map fst hs_frags) -> fs_get hs_files (hs_tmp n) = None)
+  /\ exists f2, save hs_tmp hs_decl true no_fault hs_files true hs_frags hs_order false = (f2, true, None)
+       /\ fs_get f2 [100;47;98;46;121]%N = Some (hs_decl ++ [4]%N) /\ fs_get f2 [122]%N = Some [9]%N.
+Proof.
+  destruct hs_side_holds as (A & B & C & D & E & F).
+  repeat (split; [assumption|]). eexists. split; [vm_compute; reflexivity|]. split; vm_compute; reflexivity.
+Qed.
 
 (* 3'. under EVERY fault schedule (any number of faults, anywhere, including rename/unlink during
        commit or clean-up) and for dry and real saves: each fragment file is either untouched or holds
        its complete new content — never a prefix —, files that are neither fragments nor their
        temporaries are untouched, and the handler is idle again afterwards *)
+(* audit note: the conjunct [idle' = true] (and the [true] in the results of 1, 1', 2, 3) is by definition
+   of [save] with fixed = true ([if fixed then true else ...], the `finally` of the proposed fix); what it
+   says about the implementation rests on the differential correspondence, not on this proof.  The other
+   two conjuncts are proved properties of the model. *)
 Theorem never_partial_always_idle : forall tmp decl (f frags : list (str * str)) order,
   (forall a b, In a (map fst frags) -> In b (map fst frags) -> tmp a = tmp b -> a = b) ->
   (forall a b, In a (map fst frags) -> In b (map fst frags) -> tmp a <> b) ->
@@ -81,6 +160,19 @@ Theorem never_partial_always_idle : forall tmp decl (f frags : list (str * str))
   /\ (forall m, ~ In m (map fst frags) -> ~ In m (map tmp (map fst frags)) -> fs_get f2 m = fs_get f m).
 Proof. exact never_partial_l. Qed.
 Print Assumptions never_partial_always_idle.
+(* all hypotheses together, under a schedule of TWO faults: f.write(payload) of the first fragment fails
+   (point 3), then the unlink of its temporary file fails too (point 5): the temporary file stays (with
+   the declaration only), every fragment and the unrelated file are untouched, the handler is idle *)
+Example never_partial_always_idle_hyps_sat :
+  (forall a b, In a (map fst hs_frags) -> In b (map fst hs_frags) -> hs_tmp a = hs_tmp b -> a = b)
+  /\ (forall a b, In a (map fst hs_frags) -> In b (map fst hs_frags) -> hs_tmp a <> b)
+  /\ NoDup hs_order /\ incl (map fst hs_frags) hs_order
+  /\ save hs_tmp hs_decl true (faults [(3, E_OSError); (5, E_Other)]%nat) hs_files true hs_frags hs_order false
+     = ((hs_tmp [97;46;120]%N, hs_decl) :: (hs_tmp [97;46;120]%N, []) :: hs_files, true, Some E_Other).
+Proof.
+  destruct hs_side_holds as (_ & B & C & D & E & _).
+  repeat (split; [assumption|]). vm_compute; reflexivity.
+Qed.
 
 (* 4. the side conditions on names are decidable for any concrete list of fragment names *)
 Theorem side_conditions_decidable : forall tmp names, tmp_ok tmp names = true ->
@@ -89,6 +181,8 @@ Theorem side_conditions_decidable : forall tmp names, tmp_ok tmp names = true ->
   /\ (forall a b, In a names -> In b names -> tmp a <> b).
 Proof. exact tmp_ok_sound. Qed.
 Print Assumptions side_conditions_decidable.
+Example side_conditions_decidable_hyps_sat : tmp_ok hs_tmp (map fst hs_frags) = true.
+Proof. vm_compute; reflexivity. Qed.
 
 (* ---- the code as found (fixed = false) violates 1: a failing open of the first temporary file
         is reported as FileNotFoundError and the handler stays locked ---- *)
